@@ -43,6 +43,13 @@ PlaceStart(h, limit, n) ==
         o   == Up(lim, Unit)
     IN  IF Fits(o, RecSize(n)) THEN o ELSE Up(lim, Page)
 Place(h, limit, n) == <<PlaceStart(h, limit, n), PlaceStart(h, limit, n) + RecSize(n)>>
+(* What the layout demands of ANY allocator (the property): the record starts  *)
+(* at an aligned offset at or above the limit and above the table, fits, and    *)
+(* the new limit `end` is aligned and covers it without entering a page tail.   *)
+PlaceRel(h, limit, n, start, end) ==
+    /\ start >= limit /\ start >= FirstRec(h)
+    /\ end >= start + RecHdr + n /\ end % Unit = 0
+    /\ Fits(start, end - start)
 (* declarative reading, used as a sanity theorem: `start` is the LEAST fitting *)
 (* aligned offset >= lim                                                      *)
 IsLeastFit(lim, start, s) ==
